@@ -21,7 +21,7 @@ func init() {
 	register(&Rule{ID: "C02.c", Doc: "flag/defeated truth tables and comparison dispatch", Floor: 8, Run: c02c})
 	register(&Rule{ID: "C02.d", Doc: "leaf defaults (bare, negated, explicit operator, value())", Floor: 12, Run: c02d})
 	register(&Rule{ID: "C02.e", Doc: "short-circuit wiring of leaf / && / || chunks", Floor: 14, Run: c02e})
-	register(&Rule{ID: "C02.f", Doc: "binary operator stored is the tested &&/|| token (negated under the flag)", Floor: 2, Run: c02f})
+	register(&Rule{ID: "C02.f", Doc: "binary operator stored is the tested &&/|| token (negated under the flag)", Floor: 3, Run: c02f})
 	register(&Rule{ID: "C02.g", Doc: "precedence shape of the recursive descent", Floor: 5, Run: c02g})
 	register(&Rule{ID: "C02.h", Doc: "De Morgan distribution of the negated flag", Floor: 6, Run: c02h})
 	register(&Rule{ID: "C02.i", Doc: "branch objects are immutable after construction", Floor: 6, Run: c02i})
